@@ -73,6 +73,22 @@ pub fn customs(_args: &[String]) -> Result<Value> {
     layouts.push(vec![(2, "", payloads[4].clone()), (4, "nam", payloads[3].clone()), (4, "producer", payloads[0].clone()), (5, "debug_x", payloads[1].clone())]);
     layouts.push(vec![(5, "z", payloads[0].clone()), (5, "y", payloads[0].clone()), (5, "x", payloads[0].clone()), (0, "linking", payloads[3].clone())]);
     layouts.push(vec![(5, ".debugger", payloads[2].clone()), (5, ".debug", payloads[1].clone())]);
+    // every DWARF section name (interpreted: not compared) next to near misses of it (not interpreted: must survive, in order)
+    const DWARF_NAMES: &[&str] = &[".debug_abbrev", ".debug_addr", ".debug_aranges", ".debug_frame", ".debug_info", ".debug_line", ".debug_line_str",
+        ".debug_loc", ".debug_loclists", ".debug_macinfo", ".debug_macro", ".debug_pubnames", ".debug_pubtypes", ".debug_ranges", ".debug_rnglists",
+        ".debug_str", ".debug_str_offsets", ".debug_types", ".debug_cu_index", ".debug_tu_index"];
+    let near: Vec<String> = DWARF_NAMES.iter().flat_map(|n| vec![format!("{n}x"), format!("{n}."), n[1..].to_string(), n.to_uppercase(), format!("{n}.dw"), format!(" {n}")])
+        .chain([".debug_", ".debug_x", ".debu", ".debug_st", ".debug_in", ".debug_lin", ".debug_names_x", ".Debug_info"].iter().map(|s| s.to_string()))
+        .filter(|n| !DWARF_NAMES.contains(&n.as_str())).collect();
+    let near: &'static Vec<String> = Box::leak(Box::new(near));
+    for chunk in near.chunks(16) {
+        let mut l: Vec<(usize, &str, Vec<u8>)> = vec![];
+        for (i, n) in chunk.iter().enumerate() {
+            l.push(((i % 6), n.as_str(), vec![i as u8; i % 4]));
+            if i % 5 == 0 { l.push((5, DWARF_NAMES[(i * 7 + chunk.len()) % DWARF_NAMES.len()], vec![])); }
+        }
+        layouts.push(l);
+    }
     layouts.push(vec![(1, "big", vec![0xab; 70_000]), (5, "bigger", (0..200_000u32).map(|i| (i % 251) as u8).collect())]);
     layouts.push(vec![(3, "sourceMappingURL", b"\x10http://x/y.map".to_vec()), (5, "target_features", b"\x01+\x0bbulk-memory".to_vec())]);
     let mut failures = vec![];
@@ -306,6 +322,8 @@ pub fn emit_twice(_args: &[String]) -> Result<Value> {
                 }
             } else {
                 m.customs.add(walrus::RawCustomSection { name: ".debug_custom".into(), data: vec![1, 2, 3] });
+                m.customs.add(walrus::RawCustomSection { name: ".debug_str".into(), data: vec![b'a', 0] });
+                m.customs.add(walrus::RawCustomSection { name: ".debug_line.dwo".into(), data: vec![0; 4] });
                 m.customs.add(walrus::RawCustomSection { name: "plain".into(), data: vec![4] });
             }
             let a = m.emit_wasm();
